@@ -126,11 +126,19 @@ func c20BRConfigs(c *Ctx) (out []c20BRCfg) {
 			{4, 4, []int{27}, []int{40}, 7, []int{61}, 3, false, -1, false},
 			{4, 4, []int{27}, []int{40}, 7, []int{31, 32}, 2, false, -1, false},
 			{10, 4, []int{27}, []int{40}, 7, []int{55}, 2, true, -1, false},
+			// non-ternary LWE secrets (discrete Gaussian), Ternary{P}, Ternary{H}
+			{4, 4, []int{27}, []int{40}, 7, []int{14}, -1, false, -1, false},
+			{4, 4, []int{27}, []int{40}, 7, []int{14}, -3, false, -1, true},
 			// LWE parameters with NTTFlag = false; blind-rotation keys below the maximum level
 			{4, 4, []int{27}, []int{40}, 7, []int{14}, 3, false, -1, true},
 			{4, 4, []int{27, 30}, []int{41}, 7, []int{14}, 2, false, 0, false},
 		}
 	}
+	for _, d := range []int{-1, -2, -3, -4, -5} {
+		out = append(out, c20BRCfg{4, 4, []int{27}, []int{40}, 7, []int{14}, d, false, -1, d%2 == 0})
+	}
+	out = append(out, c20BRCfg{5, 4, []int{30}, []int{41}, 0, []int{20}, -2, false, -1, false},
+		c20BRCfg{10, 4, []int{27}, []int{40}, 7, []int{55}, -1, true, -1, false})
 	out = append(out,
 		c20BRCfg{4, 4, []int{27}, []int{40}, 7, []int{14}, 3, false, -1, true},
 		c20BRCfg{5, 4, []int{30}, []int{41}, 0, []int{14, 15}, 2, false, -1, true},
@@ -222,7 +230,22 @@ func c20GenBlindRot(c *Ctx) {
 			c.Count("br:params-rejected")
 			continue
 		}
-		psL, err := c20NewPSFlag(cfg.logNLWE, QL, nil, !cfg.lweCoeff)
+		// cfg.hw < 0 selects a non-default distribution of the LWE secret (the blind-rotation keys must encrypt
+		// X^{s_i} for ANY integer s_i, not only for ternary secrets)
+		var xsL ring.DistributionParameters
+		switch cfg.hw {
+		case -1:
+			xsL = ring.DiscreteGaussian{Sigma: 3.2, Bound: 19}
+		case -2:
+			xsL = ring.DiscreteGaussian{Sigma: 9, Bound: 50}
+		case -3:
+			xsL = ring.Ternary{P: 0.25}
+		case -4:
+			xsL = ring.Ternary{P: 0.95}
+		case -5:
+			xsL = ring.Ternary{H: 7}
+		}
+		psL, err := c20NewPSXs(cfg.logNLWE, QL, nil, !cfg.lweCoeff, xsL)
 		if err != nil {
 			c.Count("br:params-rejected")
 			continue
@@ -240,7 +263,7 @@ func c20GenBlindRot(c *Ctx) {
 
 		kgenL := rlwe.NewKeyGenerator(psL.params)
 		var skL *rlwe.SecretKey
-		if cfg.hw >= NL {
+		if cfg.hw >= NL || cfg.hw < 0 {
 			skL = kgenL.GenSecretKeyNew()
 		} else if cfg.hw == 0 {
 			skL = rlwe.NewSecretKey(psL.params)
@@ -266,20 +289,31 @@ func c20GenBlindRot(c *Ctx) {
 				break
 			}
 			A0, A1, E0, E1 := tw.replayRGSW(lq, lp, c20Shape(k), true)
-			g := make([]int64, N)
-			switch sL[i] {
-			case 1:
-				g[1] = 1
-			case -1:
-				g[N-1] = -1
-			default:
-				g[0] = 1
-			}
+			g := c20MonomialInts(N, sL[i])
 			if !probesOnly() && (i < 3 || c.Thorough()) {
 				c.Emit(fmt.Sprintf("rgsw_enc %s mode=api s=%s g=%s a0=%s e0=%s a1=%s e1=%s", par, c20I64Vec(sBR),
 					Mat(psBR.rowsFromInts(g, lq)), c20Polys(A0), c20IVecs(E0), c20Polys(A1), c20IVecs(E1)),
 					IVec(c20Shape(k))+"|"+c20RGSWOut(psBR.rgswPolys(k)))
 			}
+		}
+		// ---- key content: the i-th blind-rotation key is an RGSW encryption of X^{s_i}, for EVERY i ----
+		{
+			detail := ""
+			maxAbs := int64(0)
+			for i, k := range BRK.BlindRotationKeys {
+				if sL[i] > maxAbs {
+					maxAbs = sL[i]
+				}
+				if -sL[i] > maxAbs {
+					maxAbs = -sL[i]
+				}
+				worst := c20RowErr(psBR, skBR, k, c20MonomialInts(N, sL[i]), w)
+				if worst > uint64(psBR.params.NoiseBound())+1 && detail == "" {
+					detail = fmt.Sprintf("key %d does not decrypt to X^{s_%d} (s_%d=%d): max row error %d, bound %d", i, i, i, sL[i], worst, uint64(psBR.params.NoiseBound())+1)
+				}
+			}
+			c.Probe("brk_key_content", fmt.Sprintf("n=%d nl=%d secretDist=%d maxAbs=%d seed=%d line=%d", N, NL, cfg.hw, maxAbs, c.Seed, c.N), "brk-key-content", detail)
+			c.Count(fmt.Sprintf("br:lwe-secret maxAbs=%d", maxAbs))
 		}
 		// ---- advertised key set ----
 		evk0, _ := BRK.GetEvaluationKeySet()
@@ -960,4 +994,16 @@ func c20BRCore(c *Ctx, psBR, psL *c20PS, evalBR *blindrot.Evaluator, BRK blindro
 		}
 	}
 	c.Probe("blindrot_core_exponent", fmt.Sprintf("n=%d nl=%d a=%s b=%d seed=%d line=%d", N, NL, Vec(aCopy), b, c.Seed, c.N), "blindrot-exponent", detail)
+}
+
+// c20MonomialInts: X^e in Z[X]/(X^N+1) as a signed coefficient vector, e any integer.
+func c20MonomialInts(N int, e int64) []int64 {
+	g := make([]int64, N)
+	r := int(((e % int64(2*N)) + int64(2*N)) % int64(2*N))
+	if r < N {
+		g[r] = 1
+	} else {
+		g[r-N] = -1
+	}
+	return g
 }
